@@ -422,9 +422,10 @@ def ipv4_loose(line):
 def width_eats(case, line):
     """
     INPUT-ONLY predicate of the known finding width-mode-eats-text: the call is in width mode with IPv4 substitution
-    active, and the line contains an address that will be replaced by a LONGER substitute (10.230.230.N: 12 characters
-    and one more per further digit of N, N at most the number of addresses of the content) with fewer blanks at the
-    first blank behind it than the substitute is longer — _sub_ip_keep_width then removes non-blank characters there.
+    active, and the line contains (independent scan, every occurrence) an address other than loopback whose substitute
+    can be LONGER than the address (10.230.230.N: 12 characters and one more per further digit of N, N at most the
+    number of addresses of the content) — _sub_ip_keep_width then deletes at least one character of the line behind the
+    substitute, blank or not, and any deletion can join two tokens so that a later stage no longer sees a delimiter.
     """
     cfg, call = case["cfg"], case["call"]
     if not (call["width"] and cfg["obfuscate"] and "ip" not in (call["no_obfuscate"] or [])):
@@ -432,16 +433,7 @@ def width_eats(case, line):
     M = cleaner_mod.MAX_LINE_LENGTH
     total = len(set(a for l in case["lines"] for _, a in ipv4_loose(l[:M]) if a != "127.0.0.1"))
     longest = 11 + len(str(max(total, 1)))
-    line = line[:M]
-    for i, a in ipv4_loose(line):
-        if a == "127.0.0.1" or len(a) >= longest:
-            continue
-        j = line.find(" ", i + len(a))
-        if j < 0:
-            continue                            # no blank behind the address: nothing is removed
-        if line[j:j + (longest - len(a))].strip(" "):
-            return True
-    return False
+    return any(a != "127.0.0.1" and len(a) < longest for _, a in ipv4_loose(line[:M]))
 
 
 def mac_tokens(line):
